@@ -110,6 +110,24 @@ static int can_slot_be_imm(JanetSlot s, int8_t *out) {
     return can_be_imm(s.constant, out);
 }
 
+/* Get the target slot for an n-ary reduction. The reduction accumulates into the
+ * target, so a hinted target (e.g. the variable in (set x (- a b x))) cannot be used
+ * if one of the operands that is read after the first write lives in that register. */
+static JanetSlot reduce_target(JanetFopts opts, JanetSlot *args, int32_t first) {
+    if (opts.flags & JANET_FOPTS_HINT) {
+        int32_t i, len = janet_v_count(args);
+        for (i = first; i < len; i++) {
+            if (!(args[i].flags & (JANET_SLOT_CONSTANT | JANET_SLOT_REF)) &&
+                    args[i].envindex == opts.hint.envindex &&
+                    args[i].index == opts.hint.index) {
+                opts.flags &= ~JANET_FOPTS_HINT;
+                break;
+            }
+        }
+    }
+    return janetc_gettarget(opts);
+}
+
 /* Emit a series of instructions instead of a function call to a math op */
 static JanetSlot opreduce(
     JanetFopts opts,
@@ -135,7 +153,7 @@ static JanetSlot opreduce(
         }
         return t;
     }
-    t = janetc_gettarget(opts);
+    t = reduce_target(opts, args, 2);
     if (opim && can_slot_be_imm(args[1], &imm)) {
         janetc_emit_ssi(c, opim, t, args[0], imm, 1);
     } else {
@@ -315,7 +333,7 @@ static JanetSlot compreduce(
                ? janetc_cslot(janet_wrap_false())
                : janetc_cslot(janet_wrap_true());
     }
-    t = janetc_gettarget(opts);
+    t = reduce_target(opts, args, 1);
     for (i = 1; i < len; i++) {
         if (opim && can_slot_be_imm(args[i], &imm)) {
             janetc_emit_ssi(c, opim, t, args[i - 1], imm, 1);
